@@ -1,5 +1,6 @@
 // C06 harness: bslice and bmap wrappers against the Coq memory model / pure specification.
-// Streams: exh (bounded exhaustive single calls), wrap (every method through every wrapper),
+// Streams: exh (bounded exhaustive single calls), wrap (every method through every wrapper on a content family),
+// exh-neg (negative / large elements for the order and aggregate methods), stable (stable sorts, equal keys),
 // rand (profiled random single calls on longer contents, malformed indexes), seq (short call sequences),
 // bmap-* (map methods: single calls and sequences, nil and empty maps).
 package main
@@ -54,6 +55,68 @@ func unmarshalInputs(n int) []string {
 		"null", "[1,2", "", "{}", "[1,,2]", "x"}
 }
 
+// search targets for a content: every element, its successor, one below the minimum, and 0
+func targets(c []int) []int {
+	seen := map[int]bool{}
+	var out []int
+	put := func(v int) {
+		if !seen[v] {
+			seen[v] = true
+			out = append(out, v)
+		}
+	}
+	mn := 0
+	for i, v := range c {
+		if i == 0 || v < mn {
+			mn = v
+		}
+	}
+	put(mn - 1)
+	put(0)
+	for _, v := range c {
+		put(v)
+		put(v + 1)
+	}
+	if len(out) > 9 {
+		out = out[:9]
+	}
+	return out
+}
+
+// the contents every method is run on through every wrapper: single elements, all negative, all equal,
+// mixed signs ascending / descending / unsorted, duplicates, large magnitudes, empty
+var familyContents = [][]int{
+	{-3}, {7}, {0},
+	{-1, -3, -2}, {-7, -7, -2, -9, -1},
+	{-5, -5, -5}, {2, 2, 2, 2},
+	{-3, -1, 0, 1, 2, 7}, {7, 2, 1, 0, -1, -3}, {1, -3, 7, 0, -1, 2, -3},
+	{0, -1, 0, -1, -1}, {-(1 << 40), 1 << 41, -(1 << 40) - 5},
+	{},
+}
+
+// methods whose result is about order, magnitude or equality of the elements
+var orderMethods = map[string]bool{"Max": true, "Min": true, "Sum": true, "Avg": true, "Sort": true, "IsSorted": true, "BinarySearch": true,
+	"Contains": true, "Equal": true, "Compare": true, "Compact": true, "CompactFunc": true, "IndexFunc": true, "SortFunc": true, "SortFuncToSlice": true,
+	"SortComparator": true, "SortComparatorToSlice": true, "SortStableFunc": true, "SortStableFuncToSlice": true, "IsSortedFunc": true,
+	"BinarySearchFunc": true, "Filter": true, "FilterToSlice": true, "CompareFunc": true, "EqualFunc": true, "Reverse": true, "Marshal": true, "Unmarshal": true}
+
+// one variant per method name (the k-th of those valueOps offers), so that a whole family can go through every wrapper
+func oneVariantPerMethod(ops []op, k int) []op {
+	by := map[string][]op{}
+	var order []string
+	for _, o := range ops {
+		if _, ok := by[o.Name]; !ok {
+			order = append(order, o.Name)
+		}
+		by[o.Name] = append(by[o.Name], o)
+	}
+	var out []op
+	for _, n := range order {
+		out = append(out, by[n][k%len(by[n])])
+	}
+	return out
+}
+
 // every call of the value-driven methods for a given content (arguments enumerated)
 func valueOps(c []int, full bool) []op {
 	var ops []op
@@ -84,11 +147,11 @@ func valueOps(c []int, full bool) []op {
 		for _, n := range []string{"SortComparator", "SortComparatorToSlice", "SortComparatorToBSlice"} {
 			add(op{Name: n, Fn: f})
 		}
-		for t := -1; t <= 3; t++ {
+		for _, t := range targets(c) {
 			add(op{Name: "BinarySearchFunc", I: t, Fn: f})
 		}
 	}
-	for t := -1; t <= 3; t++ {
+	for _, t := range targets(c) {
 		add(op{Name: "BinarySearch", I: t})
 		add(op{Name: "Contains", I: t})
 	}
@@ -190,7 +253,7 @@ func randContent(rng *vhlib.Rng, n int, profile int) []int {
 		case 1: // descending
 			c[i] = (n - i) * 3
 		case 2: // zig-zag
-			c[i] = (i % 2) * 10 - i
+			c[i] = (i%2)*10 - i
 		case 3: // duplicate heavy
 			c[i] = rng.Intn(3)
 		case 4: // zero values
@@ -282,27 +345,53 @@ func main() {
 		}
 	}
 
-	// ---- wrap: every method through every wrapper that has it ----
-	for rep := 0; rep < 2; rep++ {
-		c := randContent(rng, 3+rep*2, 3+rep*2)
-		var ops []op
-		ops = append(ops, valueOps(c, false)...)
-		for _, m := range indexMethods {
-			ops = append(ops, op{Name: m, I: rng.Range(0, len(c)), J: 42, Vals: valsChoices[1+rep]})
+	// ---- wrap: every method through EVERY wrapper that has it (a Safe method has its own body: it is exercised on its
+	// own, never assumed equal to its unsafe sibling), on the whole content family (negatives, all equal, single, ...) ----
+	for k, c := range familyContents {
+		ops := oneVariantPerMethod(valueOps(c, true), k)
+		for mi, m := range indexMethods {
+			ops = append(ops, op{Name: m, I: (k + mi) % (len(c) + 2), J: 42 - k, Vals: valsChoices[1+k%3]})
 		}
-		for _, m := range rangeMethods {
-			ops = append(ops, op{Name: m, I: 1, J: 2 + rep, Vals: valsChoices[2]})
+		for mi, m := range rangeMethods {
+			lo := (k + mi) % (len(c) + 1)
+			ops = append(ops, op{Name: m, I: lo, J: lo + (k+mi/2)%2, Vals: valsChoices[k%3]})
 		}
-		seenName := map[string]bool{}
 		for _, op1 := range ops {
-			if seenName[op1.Name] && rep == 0 {
-				continue
-			}
-			seenName[op1.Name] = true
 			for wi := 0; wi < 8; wi++ {
 				if wi/2 >= op1.level() {
 					runCase(w, "wrap", wi, c, []op{op1})
 				}
+			}
+		}
+	}
+
+	// ---- exh-neg: every content of length <= 3 over {-3,-1,7}: the order/magnitude/equality methods with every
+	// argument variant, on the unsafe AND the safe wrapper of the flavour that defines the method ----
+	for _, c := range allContents(3, []int{-3, -1, 7}) {
+		for _, op1 := range valueOps(c, o.Thorough()) {
+			if !orderMethods[op1.Name] {
+				continue
+			}
+			runCase(w, "exh-neg", 2*op1.level(), c, []op{op1})
+			runCase(w, "exh-neg", 2*op1.level()+1, c, []op{op1})
+		}
+	}
+
+	// ---- stable: the stable sorts on long contents with many equal keys (lt_half: 2k and 2k+1 are equal but
+	// distinguishable), beyond the insertion-sort threshold of the unstable sort ----
+	nst := 12
+	if o.Thorough() {
+		nst = 200
+	}
+	for i := 0; i < nst; i++ {
+		n := 13 + rng.Intn(50)
+		c := make([]int, n)
+		for j := range c {
+			c[j] = rng.Intn(8)
+		}
+		for _, m := range []string{"SortStableFunc", "SortStableFuncToSlice", "SortStableFuncToBSlice"} {
+			for _, wi := range []int{0, 1, 2 + 2*(i%3), 3 + 2*(i%3)} {
+				runCase(w, "stable", wi, c, []op{{Name: m, Fn: "lt_half"}})
 			}
 		}
 	}
@@ -343,6 +432,6 @@ func main() {
 	w.Close(o, "bslice: one case = one logical content (ints), 3 capacity variants (clipped, cap=len+1, cap=2*len+8; for the empty content also the nil slice), "+
 		"a sequence of 1..5 method calls executed on the real wrappers; every call records panic/error/result/receiver window/array identity/alias probe per variant. "+
 		"exh = every method x every argument in [-1,len+1] x contents over {0,1,2} (quick: value-driven methods on all contents of length<=3, index-driven methods on all contents of length<=2 and two per longer length; thorough: all of length<=4); "+
-		"wrap = every method through each of the 8 wrappers; rand = profiled contents up to length 40 with indexes in [-2,n+2]; seq = sequences of 2..5 calls. "+
+		"wrap = every method through each of the 8 wrappers on a family of contents (single, all negative, all equal, mixed signs, large magnitudes, empty); exh-neg = order/magnitude methods on all contents of length<=3 over {-3,-1,7} through the unsafe and safe wrapper of the defining flavour; stable = stable sorts on 13..62 elements with equal keys; rand = profiled contents up to length 40 with indexes in [-2,n+2]; seq = sequences of 2..5 calls. "+
 		"bmap: sequences of 1..6 calls on the 4 wrappers from nil/empty/populated maps. distinct = distinct case terms; non-trivial = non-empty content or a call with a non-empty argument (bslice), non-empty initial map or more than one call (bmap)")
 }
